@@ -436,6 +436,16 @@ class Gen:
             m, m_inv = self.moment(qids, depth)
             ms.append(m)
             inv = inv and m_inv
+        if t.chance(1, 3, "sub.feedforward"):
+            # the operation then carries BOTH measurement keys and control keys: a measurement, an operation
+            # controlled on its key, and one controlled on a key measured outside
+            k = self.key_name()
+            q = qids[0][0]
+            ms.append(["moment", [["op", ["measure", 1, k, None, None, None], [q]]]])
+            ms.append(["moment", [["cop", ["op", ["g", "X"], [q]], [k]]]])
+            ms.append(["moment", [["cop", ["op", ["g", "Z"], [q]], [self.condition()]]]])
+            self.flags.add("measurement-and-control-keys")
+            inv = False
         frozen = ["frozen", ms, []]
         if t.chance(1, 3, "sub.share"):
             frozen = ["share", f"s{self._share_n}", frozen]
@@ -448,6 +458,14 @@ class Gen:
     def top_circuit_op(self):
         pool = self.qid_pool(self.t.between(1, 3, "cop.qubits"), qudits=False)
         frozen, inv, pool = self.frozen(pool, depth=1)
+        if self.t.chance(1, 3, "cop.feedforward"):
+            k = self.key_name()
+            q = pool[0][0]
+            frozen[1] = frozen[1] + [["moment", [["op", ["measure", 1, k, None, None, None], [q]]]],
+                                     ["moment", [["cop", ["op", ["g", "X"], [q]], [k]]]],
+                                     ["moment", [["cop", ["op", ["g", "Z"], [q]], [self.condition()]]]]]
+            self.flags.add("measurement-and-control-keys")
+            inv = False
         opts = self.circuit_op_options(pool, inv, frozen)
         self.flags.add("circuit-operation")
         return ["circuitop", frozen, opts]
